@@ -434,7 +434,9 @@ impl World {
         }
         // C08: the independently decoded digest is what the sender's state says (catches layout
         // changes that are self-consistent between the real encoder and decoder)
-        if self.on("C08") {
+        // (also under C14, whose statement is about deltas computed "from the receiver's own digest":
+        // a digest that misreports the sender's copies voids that premise)
+        if self.on("C08") || self.on("C14") {
             if let Some(d) = msg.digest() {
                 let node = self.nodes[p].as_ref().unwrap();
                 let scheduled: HashSet<Id> = {
@@ -450,7 +452,8 @@ impl World {
                     .collect();
                 if d != &want {
                     let show = |v: &Vec<(Id, codec::NodeDigest)>| v.iter().take(4).map(|(id, nd)| format!("{}:(hb{},gc{},mv{})", id.short(), nd.heartbeat, nd.gc, nd.max)).collect::<Vec<_>>().join(" ");
-                    return Err(self.viol("C08", "C08.digest_content", format!("digest on the wire, read by the independent decoder: [{}]; sender state: [{}]", show(d), show(&want))));
+                    let (prop, code) = if self.on("C08") { ("C08", "C08.digest_content") } else { ("C14", "C14.digest_misreports") };
+                    return Err(self.viol(prop, code, format!("digest on the wire, read by the independent decoder: [{}]; sender state: [{}]", show(d), show(&want))));
                 }
             }
             if let Msg::Syn { cluster, .. } = &msg {
